@@ -89,7 +89,18 @@ PROPS = {
         rule=("rapid-generated (image, reversible single-tile configuration). Non-trivial: >= 2 distinct sample values and layers*(levels+1)*components >= 2 packets. "
               "Labels empty-subband / image<codeblock are computed from the drawn geometry, body-contains-FF from the emitted tile-part bodies via the independent walker. Distinct = hash of the case."),
         assumptions=COMMON_ASSUME,
-        quick=dict(shards=16, checks=250, extra=["TestQuota"], timeout=900),
+        quick=dict(shards=16, checks=1200, extra=["TestQuota"], timeout=900),
         thorough=dict(shards=16, checks=3000, extra=["TestQuota", dict(run="TestGrid", shards=16)], timeout=3400),
+    ),
+    "C05": dict(
+        pkg="c05",
+        technique="property-based round-trip testing (rapid) through the registered DICOM codecs over generated parameter objects, plus a deterministic size grid",
+        level_text="Exploration: seeded rapid generators over FrameInfo (8/16 bits allocated, BitsStored 2-16, 1/3 samples, signedness, 1-2 frames) x parameter objects (nil, typed, generic) constructed inside the property's precondition (final lossless layer kept, or no rate target); thorough adds the 40x80 size grid.",
+        level_note="Round trip through the registry codecs .90 and .92; trusts the Go runtime.",
+        rule=("rapid-generated (frames, FrameInfo, parameter object). Non-trivial: a rate target is in effect (Rate>0 or TargetRatio>0, so the PCRD path runs) and the image has >= 2 distinct values. "
+              "Distinct = hash of the case."),
+        assumptions=COMMON_ASSUME,
+        quick=dict(shards=16, checks=300, extra=["TestQuota"], timeout=900),
+        thorough=dict(shards=16, checks=2500, extra=["TestQuota", dict(run="TestGrid", shards=16)], timeout=3400),
     ),
 }
